@@ -2,6 +2,7 @@ package main
 
 import (
 	"fmt"
+	"os"
 	"go/token"
 	"go/types"
 	"sort"
@@ -25,6 +26,8 @@ type taintCfg struct {
 	concatCleans bool
 	// sink: argument idx of this call must not be tainted
 	sink func(c *ssa.CallCommon, name string, argIdx int) bool
+	// visitorSource: closures handed to this callee receive tainted parameters (fasthttp Visit* callbacks)
+	visitorSource func(name string) bool
 	// opaque external callees that neither propagate nor store (e.g. logging)
 	ignoreCall func(name string) bool
 	// pruneEdge: configuration assumption — edges that are infeasible under it (block, slot)
@@ -51,9 +54,11 @@ type taintEngine struct {
 }
 
 type fnSummary struct {
-	ret  bool
-	recv bool // taints the object behind pointer param 0 (receiver mutation)
-	hits []sinkHit
+	ret     bool
+	recv    bool   // taints the object behind pointer param 0 (receiver mutation)
+	mut     []bool // reference-typed parameters whose object got tainted inside
+	freeMut []bool // captured variables whose object got tainted inside (closures)
+	hits    []sinkHit
 }
 
 func newTaint(p *Prog, cfg taintCfg) *taintEngine {
@@ -61,7 +66,14 @@ func newTaint(p *Prog, cfg taintCfg) *taintEngine {
 }
 
 func inModule(f *ssa.Function) bool {
-	return f != nil && f.Pkg != nil && strings.HasPrefix(f.Pkg.Pkg.Path(), fiberMod) && len(f.Blocks) > 0
+	if f == nil || len(f.Blocks) == 0 {
+		return false
+	}
+	pk := f.Pkg
+	if pk == nil && f.Origin() != nil {
+		pk = f.Origin().Pkg // instantiated generic
+	}
+	return pk != nil && strings.HasPrefix(pk.Pkg.Path(), fiberMod)
 }
 
 func maskKey(f *ssa.Function, mask []bool, free []bool) string {
@@ -145,6 +157,11 @@ func (t *taintEngine) analyze(f *ssa.Function, params []bool, free []bool, via s
 			return false // numbers, booleans, times cannot carry attacker bytes
 		}
 		tainted[v] = true
+		if u, ok := v.(*ssa.UnOp); ok && u.Op == token.MUL {
+			if fv, ok := u.X.(*ssa.FreeVar); ok {
+				tainted[fv] = true
+			}
+		}
 		return true
 	}
 	// root object behind an address/pointer value (for stores and receiver mutation)
@@ -160,16 +177,35 @@ func (t *taintEngine) analyze(f *ssa.Function, params []bool, free []bool, via s
 			return root(x.X, d+1)
 		case *ssa.Slice:
 			return root(x.X, d+1)
-		case *ssa.UnOp:
-			if x.Op == token.MUL {
-				return root(x.X, d+1)
-			}
 		case *ssa.ChangeType:
-			return root(x.X, d+1)
-		case *ssa.Convert:
 			return root(x.X, d+1)
 		}
 		return v
+	}
+	// per-function field sensitivity: (base value, field index) pairs that hold tainted data
+	type fkey struct {
+		base ssa.Value
+		idx  int
+	}
+	ftaint := map[fkey]bool{}
+	markObj := func(addr ssa.Value) bool {
+		// the object an address designates: a field of some base, or the base itself
+		if fa, ok := addr.(*ssa.FieldAddr); ok {
+			k := fkey{fa.X, fa.Field}
+			if !ftaint[k] {
+				ftaint[k] = true
+				tainted[fa] = true
+				return true
+			}
+			return false
+		}
+		r := root(addr, 0)
+		if _, isParam := r.(*ssa.Parameter); isParam {
+			if _, viaField := addr.(*ssa.IndexAddr); !viaField && addr != r {
+				return false
+			}
+		}
+		return mark(r)
 	}
 	for iter := 0; iter < 50; iter++ {
 		changed := false
@@ -244,8 +280,14 @@ func (t *taintEngine) analyze(f *ssa.Function, params []bool, free []bool, via s
 						changed = mark(x) || changed
 					}
 				case *ssa.FieldAddr:
-					if isT(x.X) {
+					if isT(x.X) || ftaint[fkey{x.X, x.Field}] {
 						changed = mark(x) || changed
+					}
+					if fv := fieldVar(x.X.Type(), x.Field); fv != nil {
+						name := fieldOwner(fv) + "." + fv.Name()
+						if t.fields[name] || (t.cfg.fieldSource != nil && t.cfg.fieldSource(name)) {
+							changed = mark(x) || changed
+						}
 					}
 				case *ssa.Range:
 					if isT(x.X) {
@@ -270,8 +312,7 @@ func (t *taintEngine) analyze(f *ssa.Function, params []bool, free []bool, via s
 				case *ssa.Store:
 					if isT(x.Val) {
 						// the stored-to object becomes tainted
-						rt := root(x.Addr, 0)
-						changed = mark(rt) || changed
+						changed = markObj(x.Addr) || changed
 						changed = mark(x.Addr) || changed
 						if fa, ok := x.Addr.(*ssa.FieldAddr); ok {
 							if fv := fieldVar(fa.X.Type(), fa.Field); fv != nil {
@@ -295,7 +336,24 @@ func (t *taintEngine) analyze(f *ssa.Function, params []bool, free []bool, via s
 					}
 				case *ssa.MapUpdate:
 					if isT(x.Value) || isT(x.Key) {
-						changed = mark(x.Map) || changed
+						// the map object, also when it is reached through interface conversions of the same reference
+						for v := ssa.Value(x.Map); v != nil; {
+							changed = mark(v) || changed
+							switch y := v.(type) {
+							case *ssa.TypeAssert:
+								v = y.X
+							case *ssa.MakeInterface:
+								v = y.X
+							case *ssa.ChangeInterface:
+								v = y.X
+							case *ssa.ChangeType:
+								v = y.X
+							case *ssa.Extract:
+								v = y.Tuple
+							default:
+								v = nil
+							}
+						}
 					}
 				case *ssa.MakeClosure:
 					// closure sees tainted free variables
@@ -393,8 +451,21 @@ func (t *taintEngine) analyze(f *ssa.Function, params []bool, free []bool, via s
 							changed = mark(res) || changed
 						}
 						if s.recv && len(args) > 0 {
-							changed = mark(root(args[0], 0)) || changed
+							changed = markObj(args[0]) || changed
 							changed = mark(args[0]) || changed
+						}
+						for i, m := range s.mut {
+							if m && i < len(args) {
+								changed = mark(args[i]) || changed
+								changed = markObj(args[i]) || changed
+							}
+						}
+						if closure != nil {
+							for i, m := range s.freeMut {
+								if m && i < len(closure.Bindings) {
+									changed = mark(closure.Bindings[i]) || changed
+								}
+							}
 						}
 						for _, h := range s.hits {
 							dup := false
@@ -423,7 +494,7 @@ func (t *taintEngine) analyze(f *ssa.Function, params []bool, free []bool, via s
 							}
 							if tArg {
 								changed = mark(args[0]) || changed
-								changed = mark(root(args[0], 0)) || changed
+								changed = markObj(args[0]) || changed
 							}
 						}
 					}
@@ -437,7 +508,7 @@ func (t *taintEngine) analyze(f *ssa.Function, params []bool, free []bool, via s
 							}
 							pm := make([]bool, len(cf.Params))
 							// a visitor over a tainted collection hands tainted elements to the callback
-							if isT(args[0]) || isT(root(args[0], 0)) {
+							if isT(args[0]) || isT(root(args[0], 0)) || (t.cfg.visitorSource != nil && t.cfg.visitorSource(name)) {
 								for i := range pm {
 									pm[i] = true
 								}
@@ -445,6 +516,11 @@ func (t *taintEngine) analyze(f *ssa.Function, params []bool, free []bool, via s
 							s := t.analyze(cf, pm, fm, chain)
 							for _, h := range s.hits {
 								sum.hits = append(sum.hits, h)
+							}
+							for i, m := range s.freeMut {
+								if m && i < len(mc.Bindings) {
+									changed = mark(mc.Bindings[i]) || changed
+								}
 							}
 						}
 					}
@@ -459,6 +535,29 @@ func (t *taintEngine) analyze(f *ssa.Function, params []bool, free []bool, via s
 		}
 		if !changed {
 			break
+		}
+	}
+	if os.Getenv("TAINT_DEBUG") == f.Name() {
+		var names []string
+		for v := range tainted {
+			names = append(names, v.Name()+"="+v.String())
+		}
+		sort.Strings(names)
+		fmt.Println("TAINT", f.Name(), key, "ret", sum.ret, strings.Join(names, " | "))
+	}
+	sum.mut = make([]bool, len(f.Params))
+	for i, p := range f.Params {
+		if (i >= len(params) || !params[i]) && tainted[p] {
+			switch p.Type().Underlying().(type) {
+			case *types.Pointer, *types.Map, *types.Slice:
+				sum.mut[i] = true
+			}
+		}
+	}
+	sum.freeMut = make([]bool, len(f.FreeVars))
+	for i, fv := range f.FreeVars {
+		if (i >= len(free) || !free[i]) && tainted[fv] {
+			sum.freeMut[i] = true
 		}
 	}
 	// receiver mutation: the object behind param 0 got tainted
@@ -540,8 +639,14 @@ func carriesText(t types.Type, depth int) bool {
 	case *types.Basic:
 		return u.Info()&types.IsString != 0 || u.Kind() == types.UnsafePointer || u.Kind() == types.UntypedNil
 	case *types.Slice:
+		if b, ok := u.Elem().Underlying().(*types.Basic); ok && (b.Kind() == types.Byte || b.Kind() == types.Uint8) {
+			return true
+		}
 		return carriesText(u.Elem(), depth+1)
 	case *types.Array:
+		if b, ok := u.Elem().Underlying().(*types.Basic); ok && (b.Kind() == types.Byte || b.Kind() == types.Uint8) {
+			return true
+		}
 		return carriesText(u.Elem(), depth+1)
 	case *types.Pointer:
 		return carriesText(u.Elem(), depth+1)
